@@ -453,8 +453,13 @@ impl Compiler {
             var_regs.push((name.cheap_clone(), reg));
         }
 
-        // Push outer scope for the init
+        // Push outer scope for the init; the loop variables are in their dead zone while
+        // their initialisers run (`for (let i = i; ...)` is a ReferenceError)
         self.builder.emit(Op::PushScope);
+        for name in var_names {
+            let name_idx = self.builder.add_string(name.cheap_clone())?;
+            self.builder.emit(Op::DeclareLexical { name: name_idx });
+        }
 
         // Compile init (first iteration's values)
         if let Some(ForInit::Variable(decl)) = &for_stmt.init {
@@ -574,6 +579,7 @@ impl Compiler {
 
         // Push scope
         self.builder.emit(Op::PushScope);
+        self.emit_for_in_of_head_tdz(&for_in.left)?;
 
         // Compile the right side (object to iterate)
         let obj_reg = self.builder.alloc_register()?;
@@ -659,6 +665,7 @@ impl Compiler {
 
         // Push scope
         self.builder.emit(Op::PushScope);
+        self.emit_for_in_of_head_tdz(&for_of.left)?;
 
         // Compile the right side (iterable)
         let obj_reg = self.builder.alloc_register()?;
@@ -790,6 +797,24 @@ impl Compiler {
         // Pop scope
         self.builder.emit(Op::PopScope);
 
+        Ok(())
+    }
+
+    /// The let/const names bound by the head of a for-in/for-of are in their temporal dead zone
+    /// while the right-hand side is evaluated (`for (const x of [x])` is a ReferenceError)
+    fn emit_for_in_of_head_tdz(&mut self, left: &ForInOfLeft) -> Result<(), JsError> {
+        if let ForInOfLeft::Variable(decl) = left
+            && decl.kind != VariableKind::Var
+        {
+            let mut names = Vec::new();
+            for declarator in decl.declarations.iter() {
+                Self::collect_pattern_names(&declarator.id, &mut names);
+            }
+            for name in names {
+                let name_idx = self.builder.add_string(name)?;
+                self.builder.emit(Op::DeclareLexical { name: name_idx });
+            }
+        }
         Ok(())
     }
 
